@@ -543,7 +543,10 @@ def run_case(sh, s, d, case):
                             sh.count('histories_ended_by_an_undo_that_left_a_dangling_reference')
                             tm.abort()
                             return None
-                        content_at[(oid_of[name], tid)] = committed[name]
+                        prior = [t_ for (o_, t_) in content_at if o_ == oid_of[name]]
+                        if not prior or content_at[(oid_of[name], max(prior))] is None:
+                            content_at[(oid_of[name], tid)] = committed[name]         # the blob itself was re-created
+                        # (else only the reference came back - the undo of an unlink: the blob has no record in this transaction)
                         if name not in names:
                             names.append(name)
                 names[:] = [n for n in names if committed.get(n) is not None]
@@ -626,6 +629,12 @@ def run_case(sh, s, d, case):
                     shutil.rmtree(blob_dir + '.old', ignore_errors=True)
                 if not quiescent('after-pack') or not second_connection('after-pack'):
                     return None
+                if any(gu <= T for (goid, gu, gr) in garbage_windows):
+                    # a blob was garbage for a while before this pack time: what undo does afterwards with the transactions
+                    # around that window belongs to the pack-GC family recorded under C07 (records a later undo needs are
+                    # gone); the history ends here, with the verdicts up to and including this pack
+                    sh.count('histories_ended_after_a_pack_behind_a_garbage_window')
+                    break
                 # every revision still listed must still open
         tm.abort()
         after_abort()
